@@ -129,7 +129,11 @@ fn dump_point(base: &Path, path: &Path) -> StoredPointDump {
     };
     res.readable = true;
     res.manifest = point.manifest().map(|m| StoredManifestDump {
-        number: m.manifest_number.to_string(),
+        number: {
+            // `Serial`'s `Display` renders zero as the empty string.
+            let text = m.manifest_number.to_string();
+            if text.is_empty() { "0".into() } else { text }
+        },
         this_update: m.this_update.timestamp(),
         not_after: m.not_after.timestamp(),
         ca_repository: m.ca_repository.to_string(),
